@@ -69,7 +69,7 @@ Classes == {"ascii", "ctl", "latin1", "bmp", "astral", "lf", "cr"}
 
 \* the kinds of string values the generator draws from, and their character classes (run by run)
 StrKinds == {"ascii", "latin1", "latin1-lead", "cjk", "astral", "astral-trail", "nbsp", "rtl",
-             "combining", "bom", "u2028", "nel", "ff", "vt", "tab", "lf-ml", "lone-cr", "crlf-ml", "mixed"}
+             "combining", "nfc-unstable", "bom", "u2028", "nel", "ff", "vt", "tab", "lf-ml", "lone-cr", "crlf-ml", "mixed"}
 
 Chars(kind) ==
     CASE kind = "ascii"        -> <<"ascii">>
@@ -81,6 +81,7 @@ Chars(kind) ==
       [] kind = "nbsp"         -> <<"ascii", "latin1", "ascii">>          \* U+00A0
       [] kind = "rtl"          -> <<"ascii", "bmp", "ascii", "bmp", "ascii">>
       [] kind = "combining"    -> <<"ascii", "bmp", "ascii", "bmp", "ascii">>
+      [] kind = "nfc-unstable" -> <<"ascii", "bmp", "ascii">>             \* changed by Unicode normalisation: U+212B, jamo, U+F900
       [] kind = "bom"          -> <<"ascii", "bmp", "ascii">>             \* U+FEFF inside the value
       [] kind = "u2028"        -> <<"ascii", "bmp", "ascii">>             \* LINE / PARAGRAPH SEPARATOR
       [] kind = "nel"          -> <<"ascii", "latin1", "ascii">>          \* U+0085
